@@ -117,6 +117,7 @@ type c03Endpoint struct {
 	reply    []byte // protocol reply to send first (far side), possibly in one segment with write 0
 	withW0   bool   // coalesce script write 0 with reply
 	needHead string // client: expect a reply head containing this status first
+	onHead   func()
 	status   string
 	headErr  string
 	sent     int
@@ -154,6 +155,9 @@ func (e *c03Endpoint) run() {
 				return
 			}
 			e.pre = rest
+			if e.onHead != nil {
+				e.onHead()
+			}
 		}
 		if len(e.pre) > 0 {
 			if m := streamCheck(e.recvID, 0, e.pre); m >= 0 && e.mismatch < 0 {
@@ -406,7 +410,7 @@ func runC03(env *core.Env, ci any) {
 				cfg.UpstreamProxy = &url.URL{Scheme: "socks5", Host: "upstream.example:1080", User: ui}
 			case "connectfunc":
 				cfg.ConnectFunc = func(req *http.Request) (*http.Response, io.ReadWriteCloser, error) {
-					conn, err := env.Net.Dial(req.Context(), "sut", req.URL.Host)
+					conn, err := env.Net.DialTagged(req.Context(), "sut", req.URL.Host, "connectfunc")
 					if err != nil {
 						return nil, nil, err
 					}
@@ -465,8 +469,10 @@ func runC03(env *core.Env, ci any) {
 				env.Probe("payload_coalesced_with_head")
 			}
 			ep.needHead = " 200 "
+			ep.onHead = func() { env.CountResponse("CONNECT", 200) }
 			if c.Route == "upgrade" {
 				ep.needHead = " 101 "
+				ep.onHead = func() { env.CountResponse("GET", 101) }
 			}
 			t.client = ep
 			ep.run()
@@ -493,6 +499,9 @@ func runC03(env *core.Env, ci any) {
 	env.Sched.Drain(10000)
 
 	fault := c.Fault != ""
+	if fault {
+		env.AcctInexact = true
+	}
 	if out != 0 {
 		env.Fail("tunnel-stalled", c.Route, "scheduler outcome %v after %d steps: a tunnel endpoint never finished (route=%s)", out, env.Sched.Steps, c.Route)
 	}
